@@ -1235,7 +1235,7 @@ Theorem run_events_branch : forall c ue ws e st ev r,
   match proxy_step current_fixes c (time_of ws e) (branch_of e) st ev with
   | Ok (st', outs) =>
       Wire.e_list e_output (filter (visible ue) outs)
-      ++ Wire.e_list (fun n => [Wire.e_nat n]) (newly_closed (st_conns st) (st_conns st'))
+      ++ Wire.e_list (fun n => [Wire.e_nat n]) (closed_by_proxy ev (st_conns st) (st_conns st'))
       ++ run_events c ue ws (S e) st' r
   | Err => [s2b "err"]
   | Panic => [s2b "panic"]
